@@ -9,7 +9,7 @@ fn fwd(op: &Op, _ctx: &dyn Context, operands: &mut dyn CoordinateSet) -> usize {
     let k_0 = op.params.k(0);
     let x_0 = op.params.x(0);
     let y_0 = op.params.y(0);
-    let lat_0 = op.params.lat(0);
+    let lat_0 = op.params.lat(0).to_radians();
     let lon_0 = op.params.lon(0).to_radians();
 
     let mut successes = 0_usize;
@@ -35,7 +35,7 @@ fn inv(op: &Op, _ctx: &dyn Context, operands: &mut dyn CoordinateSet) -> usize {
     let k_0 = op.params.k(0);
     let x_0 = op.params.x(0);
     let y_0 = op.params.y(0);
-    let lat_0 = op.params.lat(0);
+    let lat_0 = op.params.lat(0).to_radians();
     let lon_0 = op.params.lon(0).to_radians();
 
     let mut successes = 0_usize;
